@@ -193,6 +193,23 @@ let () =
         (string_of_n (update_size_upper u)) (show_ures (update_decode b))
     | [id; "UPDDEC"; hx] ->
       Printf.printf "%s UPDDEC %s\n" id (show_ures (update_decode (bytes_of_hex hx)))
+    | [id; "PAY"; ct; cmd; block] ->
+      (* block = the snappy block the implementation produced (oracle for the
+         Section variables compress/decompress) *)
+      let cmd = bytes_of_hex cmd and block = bytes_of_hex block in
+      let c = if ct = "1" then Snappy else NoCompression in
+      let compress _ = block in
+      let decompress b = if b = block then Some cmd else None in
+      (match get_encoded compress c cmd with
+       | None -> Printf.printf "%s PAY panic\n" id
+       | Some enc ->
+         Printf.printf "%s PAY ENC %s DEC %s\n" id (hex_of_bytes enc)
+           (match get_decoded decompress enc with
+            | POk b -> "ok " ^ hex_of_bytes b | PErr -> "err" | PPanic -> "panic"))
+    | [id; "PAYDEC"; hx] ->
+      Printf.printf "%s PAYDEC %s\n" id
+        (match get_decoded (fun _ -> None) (bytes_of_hex hx) with
+         | POk b -> "ok " ^ hex_of_bytes b | PErr -> "err" | PPanic -> "panic")
     | [id; "CRC"; p] ->
       Printf.printf "%s CRC %s\n" id (string_of_n (crc32 (bytes_of_hex p)))
     | [id; "ENTRY"; t; i; ty; k; c; s; r; cmd] ->
